@@ -1,6 +1,9 @@
 #!/bin/bash
 # usage: seed_confirm.sh <ID e.g. C11> <k> <dir with patch.diff demo.py meta.json>
 # Confirms in a scratch worktree: patch applies, demo passes clean / fails mutated, full test suite result. Writes <dir>/confirm.json
+# include paths are computed here, not inside the module directory (TidalPy/utilities/types.py shadows the stdlib module there)
+NPINC=$(cd /tmp && /venv/bin/python -c "import numpy; print(numpy.get_include())")
+CYRKINC=$(cd /tmp && /venv/bin/python -c "import CyRK, os; d=os.path.dirname(CyRK.__file__); print(' '.join('-I'+os.path.join(d,x) for x in ('', 'cy', 'array', 'utils')))")
 ID=$1; K=$2; D=$3
 WT=/tmp/seedruns/wt_${ID}_${K}
 # the lock keeps seed_detect.sh (which temporarily mutates /repo) from overlapping with the snapshot taken here
@@ -16,7 +19,7 @@ if [ -f $D/c_patch.diff ]; then
   # Cython is not available: the seeded change carries the hand-mirrored change of the generated .c; rebuild the module(s) in the worktree
   patch -p$(grep -m1 '^+++ ' $D/c_patch.diff | grep -q '^+++ b/' && echo 1 || echo 0) -d $WT < $D/c_patch.diff || { echo "c patch does not apply"; exit 3; }
   for f in $(grep '^+++ ' $D/c_patch.diff | awk '{print $2}' | sed 's#^[ab]/##'); do
-    (cd $WT/$(dirname $f) && gcc -shared -fPIC -O3 -fopenmp -w -I/root/.pyenv/versions/3.12.1/include/python3.12 -I$(/venv/bin/python -c "import numpy; print(numpy.get_include())") -I$WT -I. $(/venv/bin/python -c "import CyRK, os; d=os.path.dirname(CyRK.__file__); print(' '.join('-I'+os.path.join(d,x) for x in ('', 'cy', 'array', 'utils')))") $(basename $f) -o $(basename ${f%.c}).cpython-312-x86_64-linux-gnu.so) || { echo "rebuild failed"; exit 3; }
+    (cd $WT/$(dirname $f) && gcc -shared -fPIC -O3 -fopenmp -w -I/root/.pyenv/versions/3.12.1/include/python3.12 -I$NPINC -I$WT -I. $CYRKINC $(basename $f) -o $(basename ${f%.c}).cpython-312-x86_64-linux-gnu.so) || { echo "rebuild failed"; exit 3; }
   done
 fi
 PYTHONPATH=$WT /venv/bin/python $D/demo.py > $D/demo_mut.log 2>&1; MUT=$?
